@@ -20,7 +20,9 @@ CLAUSES = (
     'queue_or_trigger records a task for immediate submission only if it is '
     'not (or no longer) queued; the scheduler consumes that set even when '
     'paused but not when stopping; groups are the connected components of the '
-    'in-group prerequisite relation. Not decided: each member runs exactly '
+    'in-group prerequisite relation. '
+    'Holds are lifted for resumed and for inactive group members. '
+    'Not decided: each member runs exactly '
     'once for every subset and state.')
 
 CM = 'commands'
@@ -127,6 +129,25 @@ def check(c):
             c.ob('C28.off-group', c.key(n, ft)[:100] + ' only the listed '
                  'prerequisites', kw.get('set_all') == 'False' and norm(
                      n.args[2]) == 'prereqs_to_set', c.where(n, ft), '')
+    # the trigger overrides holds on every group member: the held marks are
+    # lifted for the members resumed in place *and* for those not in the pool
+    # (a member held while inactive would be re-held when it is respawned)
+    rh = c.find(ft, 'schd.pool.release_held_tasks(_)')
+    c.floor('C28.hold-override', 'release_held_tasks in the trigger',
+            len(rh), 1)
+    for n in rh:
+        names = {x.id for x in ast.walk(n.args[0])
+                 if isinstance(x, ast.Name)}
+        # (a local holding the union is followed one step)
+        if isinstance(n.args[0], ast.Name):
+            for a in ast.walk(ft.node):
+                if isinstance(a, ast.Assign) and norm(a.targets[0]) == \
+                        n.args[0].id:
+                    names |= {x.id for x in ast.walk(a.value)
+                              if isinstance(x, ast.Name)}
+        c.ob('C28.hold-override', c.key(n, ft)[:100] + ' covers resumed and '
+             'inactive members', {'active_to_resume', 'inactive'} <= names,
+             c.where(n, ft), f'releases {sorted(names)}')
     # remove -> release -> flush
     rm = c.find(ft, '_remove_matched_tasks(*_)')
     c.exactly('C28.remove-order', '_remove_matched_tasks', len(rm), 1)
@@ -200,6 +221,10 @@ def _loop(c, n):
 
 
 VARIANTS = [
+    ('inactive-members-stay-held', 'cylc/flow/commands.py',
+     '        schd.pool.release_held_tasks({*active_to_resume, *inactive})\n',
+     '        schd.pool.release_held_tasks(active_to_resume)\n',
+     'C28.hold-override'),
     ('retrigger-live', 'cylc/flow/commands.py',
      '            if itask.state(TASK_STATUS_PREPARING, *TASK_STATUSES_ACTIVE):',
      '            if itask.state(TASK_STATUS_PREPARING):', 'C28.live-jobs'),
